@@ -39,10 +39,16 @@ func main() {
 		c.Finish()
 		return
 	}
+	for _, cs := range valsim.LoadCorpus("C05") {
+		valsim.Run(c, cs, opt)
+	}
 	for _, cs := range valsim.Corpus(c.Rng) {
 		valsim.Run(c, cs, opt)
 	}
-	n := c.Scale(1100, 40000)
+	n := c.Scale(1100, 25000)
+	if c.Tier != "quick" {
+		opt.RejectSample = 4
+	}
 	mix := valsim.Mix{BreakView: 15, Mutate: 55, SigMutate: 30, Bytes: 12}
 	for i := 0; i < n; i++ {
 		cs, ok := valsim.Generate(c.Rng, mix, nil)
